@@ -672,6 +672,11 @@ fn main() {
     run_type::<u64>(&mut out, &mut ctr, &mut rng, "\"U64\"", &u, &[], 4);
     let i: Vec<i64> = vec![0, -1, 1, i64::MIN, i64::MIN + 1, i64::MAX, -4294967296, 1000000];
     run_type::<i64>(&mut out, &mut ctr, &mut rng, "\"I64\"", &i, &[], 3);
+    // 128-bit selectors (ids, addresses): serde_json writes and reads them exactly
+    let w: Vec<u128> = vec![0, u64::MAX as u128, 1u128 << 64, (1u128 << 64) + 1, 1u128 << 100, u128::MAX - 1, u128::MAX];
+    run_type::<u128>(&mut out, &mut ctr, &mut rng, "\"U128\"", &w, &[], 0);
+    let wi: Vec<i128> = vec![0, -1, i64::MIN as i128, (i64::MIN as i128) - 1, (i64::MAX as i128) + 1, i128::MIN, i128::MAX];
+    run_type::<i128>(&mut out, &mut ctr, &mut rng, "\"I128\"", &wi, &[], 0);
     run_type::<bool>(&mut out, &mut ctr, &mut rng, "\"B\"", &[true, false], &[], 1);
     run_type::<Color>(&mut out, &mut ctr, &mut rng, &ty_color(), &[Color::Red, Color::Green, Color::Blue], &[], 2);
 
